@@ -65,14 +65,28 @@ def norm_arith(s: Sym) -> Sym:
                 return ("op", "~", a)
             if a == C(-1):
                 return ("op", "~", b)
+        if op == "+" and len(xs) == 2:
+            # an empty buffer is the unit of concatenation: bytearray() + <what the loop appended>
+            empty = lambda x: (x[0] == "call" and x[1] in (N("bytearray"), N("bytes")) and not x[2] and not x[3]) or (x[0] == "c" and x[1] in (b"", ""))
+            if empty(xs[0]) and xs[1][0] == "acc":
+                return xs[1]
+            if empty(xs[1]) and xs[0][0] == "acc":
+                return xs[0]
         if op in ("|", "&", "^", "+", "*") and len(xs) == 2:
             a, b = sorted(xs, key=repr)
             return ("op", op, a, b)
         return ("op", op) + xs
     if s[0] == "call":
+        # b"".join([E for x in IT]) / b"".join(E for x in IT) is the concatenation that `buf = bytearray(); for x in IT: buf += E` builds
+        if s[1][0] == "a" and s[1][2] == "join" and s[1][1][0] == "c" and s[1][1][1] in (b"", "") and len(s[2]) == 1 and not s[3] \
+                and s[2][0][0] == "call" and s[2][0][1] in (N("$listcomp"), N("$genexp")) and len(s[2][0][2]) == 2 and not s[2][0][3]:
+            elt, it = s[2][0][2]
+            return ("acc", it, norm_arith(elt))
         return ("call", s[1], tuple(norm_arith(a) for a in s[2]), tuple((k, norm_arith(v)) for k, v in s[3]))
     if s[0] == "ife":
         return simplify(("ife", norm_arith(s[1]), norm_arith(s[2]), norm_arith(s[3])))
+    if s[0] == "acc" and len(s) == 3:
+        return ("acc", s[1], norm_arith(s[2]))
     return s
 
 
